@@ -875,3 +875,50 @@ def resolved_path(f, n, depth=0):
                 return q
     return p
 
+
+
+def expand_atoms(db, atoms, depth=0):
+    """Look through boolean helper functions: an atom that is a call (on `this` or free) to a function of the code base whose
+    body is `return <expr>;` is replaced by the atoms its outcome implies."""
+    out = []
+    for c, pol in atoms:
+        sc = strip(c) if c is not None else None
+        callee = None
+        if sc is not None and sc["k"] in ("CallExpr", "CXXMemberCallExpr") and depth < 4:
+            obj = sc.get("obj")
+            if obj is None or strip(obj)["k"] == "CXXThisExpr":
+                callee = db.funcs.get(sc.get("f"))
+        if callee is not None and callee.body is not None:
+            body = callee.body.get("c", [])
+            if len(body) == 1 and body[0]["k"] == "ReturnStmt" and body[0].get("value") is not None and not callee.params:
+                inner = implied_atoms(body[0]["value"], pol)
+                if not (len(inner) == 1 and inner[0][0] is strip(body[0]["value"]) and strip(body[0]["value"])["k"] not in ("BinaryOperator", "UnaryOperator")):
+                    out.append((c, pol))
+                    out.extend(expand_atoms(db, inner, depth + 1))
+                    continue
+        out.append((c, pol))
+    return out
+
+
+def lambda_node_of(db, f, expr, depth=0):
+    """The LambdaExpr node an expression denotes: a lambda expression (possibly wrapped in std::function / move / casts), or a
+    local variable whose only definition is one."""
+    if expr is None or depth > 4:
+        return None
+    s = strip(expr)
+    for x in walk(s):
+        if x["k"] == "LambdaExpr":
+            return x
+    for x in walk(s):
+        if x["k"] == "DeclRefExpr" and x.get("dk") == "local":
+            ini = single_def_init(f, x["d"])
+            if ini is not None:
+                r = lambda_node_of(db, f, ini, depth + 1)
+                if r is not None:
+                    return r
+    return None
+
+
+def lambda_of(db, f, expr, depth=0):
+    n = lambda_node_of(db, f, expr, depth)
+    return db.funcs.get(n["lambda"]) if n is not None else None
